@@ -13,7 +13,9 @@ META = {
         "offset byte, the acks in their original order (reverse of the wire order, count byte last) and raw_body = the bytes between "
         "header and ack trailer (the trailer is snipped); it rejects datagrams whose trailer would collide with the header. The real "
         "BufferReader, scoped_seek context manager and primitives are inlined. Together: what serialize writes for an unparsed message "
-        "is what the header parser reads (composition checked in the bounded tier). "
+        "is what the header parser reads (composition checked in the bounded tier). UDPMessageDeserializer.parse_message_body: "
+        "a body parse that fails (any exception of the template-directed parser) leaves raw_body exactly as it was, so the datagram is "
+        "still forwarded verbatim; a successful one consumes raw_body after exactly one parse of those very bytes. "
         "B (bounded, labelled): zero-coded header peek, lazy/eager parse + text heuristics + failed-parse frame condition over generated, "
         "non-canonically re-zero-coded, truncated, extended and bit-flipped datagrams x inspection orders."),
     "trusted_base": [
